@@ -1545,7 +1545,7 @@ impl<'s> Semantics<'s> {
                     let expr_edx = Expr::shl(expr_edx, expr_const(64, 128))?;
                     Expr::or(
                         expr_edx,
-                        Expr::zext(128, self.get_register(x86_reg::X86_REG_EAX)?.get()?)?,
+                        Expr::zext(128, self.get_register(x86_reg::X86_REG_RAX)?.get()?)?,
                     )?
                 }
                 _ => return Err("invalid bit-width in x86 div".into()),
